@@ -222,6 +222,7 @@ def annotate(events):
         ev.setdefault("gs", 0)
         ev.setdefault("bprev", 0)
         ev.setdefault("rel", 0)
+        ev.setdefault("mt", 0)
         ev.setdefault("pc", [])
         key = (ev["ph"], ev["pnull"], tuple(ev["s"]), ev["snull"])
         succ = ev["ret"] == "out" and ev["outk"] == "str" and ev["out"] and ev["out"][0] != 42
